@@ -246,7 +246,13 @@ def opt_one(job):
         try:
             scen.materialise(w, sc['tree0'], sc['series'])
             for p, d in extra_files.items():
-                ws.write(w, p, d)
+                if isinstance(d, tuple):        # ('symlink', target): move the file aside and link to it
+                    real = os.path.join(w, d[1])
+                    os.makedirs(os.path.dirname(real), exist_ok=True)
+                    os.rename(os.path.join(w, p), real)
+                    os.symlink(os.path.relpath(real, os.path.dirname(os.path.join(w, p))), os.path.join(w, p))
+                else:
+                    ws.write(w, p, d)
             rc, so, se = ws.push(w, scen.flags(cfg, threads, v))
             snaps.append((v, rc, ws.snapshot(w), se[-300:]))
         finally:
@@ -298,6 +304,17 @@ def check_c14(prop, tier):
             ({'tree0': dict(empty_tree, a={'ex': True, 'cells': [0], 'mode': '644'}), 'series': []}, {'patches/empty.patch': b'', 'series': b'empty.patch\n'}),
             ({'tree0': dict(empty_tree, a={'ex': True, 'cells': [0], 'mode': '644'}), 'series': []}, {'patches/empty.patch': b'', 'series': b'empty.patch\n', '.pc/applied-patches': b'empty.patch\n'}),
         ]
+        # a patch file and a source file that are symbolic links; a repetitive source file with a hunk in the middle
+        # (exercises the multiapply analysis' search)
+        a0 = {'ex': True, 'cells': [0], 'mode': '644'}
+        m_a = {'kind': 'M', 'old': 'a', 'new': 'a', 'ren': False, 'hunks': [{'cell': 1, 'from': 0, 'to': 1}], 'to': [], 'from': [], 'nmode': 'none'}
+        special.append(({'tree0': dict(empty_tree, a=a0), 'series': [{'fps': [m_a]}]}, {'patches/p1.patch': ('symlink', 'elsewhere/p1.real'), 'a': ('symlink', 'elsewhere/a.real')}))
+        rep = b''.join(b'line %d\n' % i for i in range(1, 15)) + b'}\n' + b''.join(b'line %d\n' % i for i in range(16, 25)) + b'}\n'
+        rep_patch = b'--- a/code.c\n+++ b/code.c\n@@ -11,7 +11,7 @@\n line 11\n line 12\n line 13\n-line 14\n+line 14 changed\n }\n line 16\n line 17\n'
+        special.append(({'tree0': empty_tree, 'series': []}, {'code.c': rep, 'patches/r.patch': rep_patch, 'series': b'r.patch\n'}))
+        rep2 = b'x\n' * 6 + b'y\n' + b'x\n' * 6
+        rep2_patch = b'--- a/r.c\n+++ b/r.c\n@@ -5,5 +5,5 @@\n x\n x\n-y\n+z\n x\n x\n'
+        special.append(({'tree0': empty_tree, 'series': []}, {'r.c': rep2, 'patches/r.patch': rep2_patch, 'series': b'r.patch\n'}))
         cfg0 = {'backup': 'onfail', 'win': 100, 'dry': False}
         for sc, extra in special:
             for t in (1, 2):
@@ -307,7 +324,7 @@ def check_c14(prop, tier):
         for (sc, cfg, o, threads, extra), probs in zip(jobs, outs):
             for cat, msg in probs:
                 res.violation(cat.split(':')[0], 'presentation/loader options change the result: ' + msg + ' (threads %d)' % threads,
-                              {'tree0': sc['tree0'], 'series': sc['series'], 'cfg': cfg, 'threads': threads, 'extra_files': {k: v.decode() for k, v in extra.items()}})
+                              {'tree0': sc['tree0'], 'series': sc['series'], 'cfg': cfg, 'threads': threads, 'extra_files': {k: (v.decode('latin-1') if isinstance(v, bytes) else list(v)) for k, v in extra.items()}})
         res.cov['parts']['option-scenarios'].update({'scenarios': len(jobs), 'runs': len(jobs) * len(VARIANTS), 'variants': [' '.join(v) for v in VARIANTS]})
         res.cov['traces_validated_against_impl'] += len(jobs) * len(VARIANTS)
         res.cov['evaluations'] += len(jobs) * len(VARIANTS)
